@@ -2,8 +2,8 @@
     assignment lists ([WebpGen.Fields]), the dimension-gate lemmas, and the
     instantiation of [history_independent] for each pooled type. *)
 From Coq Require Import String List Bool.
-From Webp Require Import Conc.PoolModel Conc.PoolFieldClass.
-From WebpGen Require Fields.
+From Webp Require Import Conc.PoolModel Conc.PoolFieldClass Conc.PoolSkel.
+From WebpGen Require Fields Skel Owner.
 Import ListNotations.
 Open Scope string_scope.
 Open Scope list_scope.
@@ -266,6 +266,104 @@ Lemma dimension_gate_lossy_Decoder :
 Proof. vm_compute. reflexivity. Qed.
 
 (* ------------------------------------------------------------------ *)
+(** * dimension gate, reuse-or-grow buffers
+
+    Buffers that are not tied to the (mbW, mbH) gate keep whatever capacity the last
+    call left; the code re-establishes their LENGTH on every call with the guard
+    [if cap(x.f) >= n { x.f = x.f[:n] } else { x.f = make(T, n) }].  The translator lists
+    every such guard whose two branches produce the same length expression; here:
+    every buffer whose length a call can observe and that survives in the pool is
+    covered by one (and the length expression is the modelled one). *)
+Lemma dimension_gate_resized :
+  F.lossy_Decoder_initFrame_resizes
+    = [("yuvT", "mbW"); ("mbInfo", "mbW + 1"); ("fInfo", "mbW"); ("mbData", "mbW"); ("slab", "slabSize")] /\
+  F.lossless_Encoder_Encode_resizes = [("argb", "pixelCount")] /\
+  F.lossless_Encoder_EncodeToWriter_resizes = [("argb", "pixelCount")] /\
+  F.lossless_Decoder_DecodeVP8L_resizes = [("pixels", "needed"); ("transformBuf", "numAlloc")] /\
+  F.lossless_Decoder_decodeImageStream_resizes = [("colorCacheBuf", "size")] /\
+  F.bitio_BoolWriter_Reset_resizes = [("buf", "0")] /\
+  F.root_argbBuf_encodeLossless_resizes = [("data", "pixelCount")] /\
+  F.root_argbBuf_encodeLosslessToWriter_resizes = [("data", "pixelCount")].
+Proof. repeat split; reflexivity. Qed.
+
+(* ------------------------------------------------------------------ *)
+(** * write-before-read: Scratch fields decided by the skeleton analysis *)
+
+Fixpoint skel_lookup (key : string) (t : list (string * skel_entry)) : skel_entry :=
+  match t with
+  | [] => {| se_status := "missing"; se_roots := []; se_env := [] |}
+  | (k, e) :: r => if String.eqb key k then e else skel_lookup key r
+  end.
+
+Definition skel_of (prefix f : string) : skel_entry :=
+  skel_lookup (prefix ++ f) WebpGen.Skel.skel_table.
+
+(** the Scratch fields of a type whose regenerated skeleton passes the analysis *)
+Definition wbr_computed (prefix : string) (cls : list (string * fclass)) : list string :=
+  filter (fun f => decided (skel_of prefix f)) (fields_of_class Scratch cls).
+
+Lemma wbr_decided_fields :
+  wbr_computed "lossy.VP8Encoder." class_VP8Encoder = wbr_VP8Encoder /\
+  wbr_computed "lossy.Decoder." class_lossy_Decoder = wbr_lossy_Decoder /\
+  wbr_computed "lossy.parallelState." class_parallelState = wbr_parallelState /\
+  wbr_computed "lossy.TokenBuffer." class_TokenBuffer = wbr_TokenBuffer /\
+  wbr_computed "lossless.Encoder." class_lossless_Encoder = wbr_lossless_Encoder /\
+  wbr_computed "lossless.Decoder." class_lossless_Decoder = wbr_lossless_Decoder.
+Proof. vm_compute. repeat split; reflexivity. Qed.
+
+(** for every decided field: every trace of accesses that the regenerated skeleton of
+    any entry point admits (all branches, loop counts, call depths, early returns)
+    begins with a complete overwrite — or contains no access at all *)
+Lemma wbr_field_safe prefix cls f :
+  In f (wbr_computed prefix cls) ->
+  forall r t, In r (se_roots (skel_of prefix f)) ->
+              den (env_of (se_env (skel_of prefix f))) (Call r) t -> safe t.
+Proof.
+  unfold wbr_computed. intros Hin. apply filter_In in Hin as [_ Hd].
+  exact (decided_sound _ Hd).
+Qed.
+
+(* ------------------------------------------------------------------ *)
+(** * returned values are fresh
+
+    Ownership discipline over the regenerated list of return sites (Gen/Owner.v): every
+    reference-typed value that the functions behind the public API return is nil, a
+    fresh allocation (make, append to a nil slice, a literal whose reference-typed
+    elements are themselves fresh), the result of an allocating function outside the
+    module, or the result of a module function whose own return sites are in the
+    list — never storage of a pooled object, never a parameter handed back, never
+    something the translator could not classify.  Hence nothing a later call does to
+    a pooled object can modify a value already returned. *)
+Definition origin_ok (sites : list (string * string)) (k : string) : bool :=
+  String.eqb k "nil"
+  || String.prefix "fresh:" k
+  || mem k fresh_external_origins
+  || (String.prefix "call:" k
+      && existsb (fun q => String.eqb ("call:" ++ fst q) k) sites).
+
+Definition returned_values_fresh_b (sites : list (string * string)) : bool :=
+  forallb (fun p => origin_ok sites (snd p)) sites.
+
+Definition api_return_roots : list string :=
+  ["root.decodeBytes#0"; "root.decodeFrameForAnimation#0"; "root.encodeLossless#0";
+   "root.encodeLossyWithAlpha#0"; "root.encodeLossyWithAlpha#1";
+   "root.encodeFrameForAnimation#0"; "root.simpleEncodeForAnimation#0"].
+
+Lemma returned_values_fresh :
+  returned_values_fresh_b WebpGen.Owner.owner_sites = true /\
+  forallb (fun r => existsb (fun q => String.eqb (fst q) r) WebpGen.Owner.owner_sites) api_return_roots = true.
+Proof. vm_compute. split; reflexivity. Qed.
+
+(** the check is not vacuous: it rejects a function that returns pooled storage, hands
+    back a parameter, or calls a function that is not listed *)
+Example returned_values_fresh_rejects :
+  returned_values_fresh_b [("f#0", "pooled:Encoder.writerBuf")] = false /\
+  returned_values_fresh_b [("f#0", "param:buf")] = false /\
+  returned_values_fresh_b [("f#0", "call:g#0")] = false /\
+  returned_values_fresh_b [("f#0", "call:g#0"); ("g#0", "fresh:make")] = true.
+Proof. vm_compute. repeat split; reflexivity. Qed.
+
+(* ------------------------------------------------------------------ *)
 (** * every sync.Pool is modelled *)
 
 Lemma pools_all_modelled : F.sync_pools = modelled_pools.
@@ -319,4 +417,52 @@ Section Instances.
   Lemma history_independent_lossy_Decoder :
     hist_indep F.lossy_Decoder_fields class_lossy_Decoder assigned_lossy_Decoder released_lossy_Decoder.
   Proof. inst reset_complete_lossy_Decoder. Qed.
+
+  (** with the decided fields: the frame condition is only needed for objects that agree
+      on the decided fields' contents, plus content independence of each decided field
+      (which [safe_trace_content_independent] derives for any execution whose accesses
+      follow a safe trace, i.e. by [wbr_field_safe] any trace of the regenerated skeleton) *)
+  Definition hist_indep_wbr (fields : list string) (cls : list (string * fclass)) (assigned released D : list string) : Prop :=
+    (forall f, In f D -> indep_field Args Out Val Shape shape run f) ->
+    frame_condition_given Args Out Val Shape shape fields cls run D ->
+    dimension_gate_condition Args Val Shape shape fields cls assigned init gate ->
+    (forall a, czero_inv Val fields cls zerov (fresh Args Val init a)) ->
+    (forall a o, czero_inv Val fields cls zerov o -> czero_inv Val fields cls zerov (snd (run a o))) ->
+    forall h a b b0 p0,
+      pool_inv Val fields cls zerov p0 ->
+      out_of_last Out Val (run_history Args Out Val assigned released init nilv gate run p0 (h ++ [(a, b)]))
+      = out_of_last Out Val (run_history Args Out Val assigned released init nilv gate run [] [(a, b0)]).
+
+  Ltac instw L HD := intros Hind Hgiven Hd Hi Hr;
+    exact (history_independent Args Out Val Shape shape _ _ _ _ init nilv zerov gate run L
+             (frame_from_decided Args Out Val Shape shape _ _ run _ HD Hind Hgiven) Hd Hi Hr).
+
+  Lemma scratch_in_fields_gen (fields : list string) (cls : list (string * fclass)) (D : list string) :
+    forallb (fun f => mem f fields && match lookup f cls with Some Scratch => true | _ => false end) D = true ->
+    forall f, In f D -> In f fields /\ class_is cls Scratch f.
+  Proof.
+    intros H f Hin. rewrite forallb_forall in H. specialize (H f Hin).
+    apply andb_prop in H as [H1 H2]. split; [now apply mem_In|].
+    unfold class_is. destruct (lookup f cls) as [[]|]; try discriminate. reflexivity.
+  Qed.
+  Lemma scratch_in_fields_VP8Encoder f :
+    In f wbr_VP8Encoder -> In f F.lossy_VP8Encoder_fields /\ class_is class_VP8Encoder Scratch f.
+  Proof. apply scratch_in_fields_gen. vm_compute. reflexivity. Qed.
+  Lemma scratch_in_fields_lossy_Decoder f :
+    In f wbr_lossy_Decoder -> In f F.lossy_Decoder_fields /\ class_is class_lossy_Decoder Scratch f.
+  Proof. apply scratch_in_fields_gen. vm_compute. reflexivity. Qed.
+  Lemma scratch_in_fields_parallelState f :
+    In f wbr_parallelState -> In f F.lossy_parallelState_fields /\ class_is class_parallelState Scratch f.
+  Proof. apply scratch_in_fields_gen. vm_compute. reflexivity. Qed.
+
+  Lemma history_independent_wbr_VP8Encoder :
+    hist_indep_wbr F.lossy_VP8Encoder_fields class_VP8Encoder assigned_VP8Encoder released_VP8Encoder wbr_VP8Encoder.
+  Proof. instw reset_complete_VP8Encoder scratch_in_fields_VP8Encoder. Qed.
+  Lemma history_independent_wbr_lossy_Decoder :
+    hist_indep_wbr F.lossy_Decoder_fields class_lossy_Decoder assigned_lossy_Decoder released_lossy_Decoder wbr_lossy_Decoder.
+  Proof. instw reset_complete_lossy_Decoder scratch_in_fields_lossy_Decoder. Qed.
+  Lemma history_independent_wbr_parallelState :
+    hist_indep_wbr F.lossy_parallelState_fields class_parallelState assigned_parallelState
+                   (strongly_written F.lossy_parallelState_putParallelState_writes) wbr_parallelState.
+  Proof. instw reset_complete_parallelState scratch_in_fields_parallelState. Qed.
 End Instances.
